@@ -680,5 +680,15 @@ def run(p, report, tier):
         da = DefiniteAssignment(_it(f.node)).run()
         report.add("R7.1", f.qual, "all locals bound before use", f"{f.file}:{f.node.lineno}", not da.reports,
                    detail="; ".join(da.reports), nontrivial=False)
+    report.rule("R7.10", "the sample the wrapped strategy chose is on top of its step on EVERY input: the store that forces it "
+                "to the row maximum before the ordinal rank transform is unconditional (np.argmax breaks ties towards the first, "
+                "the ordinal ranks towards the last entry, so `only if it is not the arg-max yet` picks another sample under "
+                "ties and the per-sample annotator counts go wrong; shared with C20 R20.3)", floor=1)
+    from . import c20 as _c20
+    _sub20 = type(report)("C20")
+    _c20.run(p, _sub20, "quick")
+    for o in _sub20.obligations:
+        if o.rule == "R20.3" and "forced to the row maximum" in o.construct:
+            report.add("R7.10", o.entity, o.construct, o.loc, o.ok, detail=o.detail)
     report.assumptions += ["that n_annotators_per_sample is honoured numerically is not decided",
                            "R7.4 is a proof obligation, not a proof of divergence"]
